@@ -19,6 +19,10 @@ type MCase struct {
 	Change *model.Change `json:"change"`
 	File   string        `json:"file"`
 	Tag    string        `json:"tag,omitempty"` // generator's label (family, dimension values)
+	// Decoy, if set, is applied first with the same parsed patch (result
+	// ignored): state kept by a parsed patch between Apply calls would leak
+	// into the judged call.
+	Decoy string `json:"decoy,omitempty"`
 }
 
 // mverdict is the comparison of the model's prediction with gopatch.
@@ -53,6 +57,9 @@ func judgeModel(c *MCase, opts canon.Options) mverdict {
 	a := model.Analyze(cc, f)
 	al := a.AllowedOutputs(opts)
 	v.Analysis, v.Allowed = a, al
+	if c.Decoy != "" {
+		_, _ = pf.Apply("a.go", []byte(c.Decoy))
+	}
 	out, aerr := pf.Apply("a.go", []byte(c.File))
 	v.ToolOut, v.ToolErr = out, aerr
 
@@ -171,6 +178,7 @@ type SCase struct {
 	Changes []*model.Change `json:"changes"`
 	File    string          `json:"file"`
 	Tag     string          `json:"tag,omitempty"`
+	Decoy   string          `json:"decoy,omitempty"` // single-change cases: file applied first with the same parsed patch
 }
 
 // judgeSeq compares the chained model prediction with one Apply of the
